@@ -40,6 +40,8 @@ type Job struct {
 func main() {
 	mode := flag.String("mode", "run", "run | verify")
 	dir := flag.String("dir", "", "data directory")
+	rec := flag.String("rec", "", "record the hook events of this process to the file (for trace validation)")
+	life := flag.String("life", "0", "identifies this incarnation in the recorded events")
 	flag.Parse()
 	golog.SetOutputs(ioutil.Discard, ioutil.Discard)
 	tmp := filepath.Join(filepath.Dir(*dir), "tmp")
@@ -54,6 +56,12 @@ func main() {
 	if *mode == "run" || *mode == "free" {
 		for i := range job.Tables {
 			job.Tables[i].MaxFlush, job.Tables[i].MinFlush = 3, 1 // timer-driven flushes every few ms
+		}
+	}
+	if *rec != "" {
+		if _, err := zv.RecordTo(*rec, *life, *dir); err != nil {
+			fmt.Fprintln(os.Stderr, "rec:", err)
+			os.Exit(2)
 		}
 	}
 	n, err := zv.OpenNode(*dir, opts, job.Tables)
